@@ -99,11 +99,40 @@ def run(chk):
             if firsts:
                 d["model_says"] = lib.coq_show("C09", IMPORTS, f"model {firsts[0][0]}", prelude)
             chk.tie_broken(f"correspondence K2 with raising callbacks ({ty})", d)
-    chk.cov["distinct_nontrivial"] = len(nontrivial)
+    # ---- callback operators of the multi-source tables (mapper of flat_map/switch_map/concat_map, condition of
+    # while_do/do_while, handler of catch): same oracle on the boundary log
+    import comb_table
+    import comb_oracle
+
+    def oracle_multi(name, inst, res):
+        v = comb_oracle.common(res, comb_oracle.timeline(res))
+        if v:
+            return v
+        raised = [r for r in res.get("raised", []) if r[1] >= 20]
+        if raised:
+            tag, code = raised[0]
+            ems = [(t, a, b) for (t, kind, a, b) in res["log"] if kind == "emit"]
+            last = ems[-1] if ems else None
+            if not (last and last[1] == "E" and k2.err_id(last[2]) == code and last[0] == tag):
+                return f"callback raised {code} at input {tag} but the subscriber's last notification is {last}"
+            if len(raised) > 1:
+                return f"a user callback ran again after the failure: {raised}"
+        return None
+    before = chk.cov["distinct_nontrivial"] if isinstance(chk.cov.get("distinct_nontrivial"), int) else 0
+    comb_table.run_ops(chk, "C09", ["flat_map", "flat_map_indexed", "concat_map", "merge_mc", "switch_map",
+                                    "flat_map_latest", "while_do", "do_while", "catch_handler"], oracle_multi,
+                       ncase=(25 if chk.tier == "quick" else 300))
+    multi_nt = chk.cov["distinct_nontrivial"]
+    multi_dist = chk.cov.get("input_distribution")
+    chk.cov["distinct_nontrivial"] = len(nontrivial) + multi_nt
+    chk.cov["multi_source_callback_operators"] = multi_dist
     chk.cov["rule"] = ("every callback operator of the C05/C06 tables x seeded instances whose callbacks raise on "
                        "33-40% of the values x seeded hot inputs (20% non-conforming); non-trivial = distinct "
                        "(instance, input) in which a callback actually raised and the oracle held")
     chk.cov["input_distribution"] = {"per_operator": per_op, "runs": raised_hist}
+    chk.cov["rule"] += ("; plus the callback operators of the multi-source tables (flat_map, concat_map, "
+                        "merge(max_concurrent), switch_map, flat_map_latest, while_do, do_while, catch(handler)) with "
+                        "the same oracle")
     chk.add_samples([{"case": c[0], "output": c[1]} for cs in gal.values() for c in cs[:1]][:5])
     return chk.finish(
         trusted_extra=["raise bookkeeping in harness/k2.py (UserError records the input position at which it was raised)"],
